@@ -46,6 +46,57 @@ def guards_refusing(body, table, ov=None):
     return out
 
 
+def _bind_stream_roles(b):
+    """Roles of the locals of a streaming / batching RPC body, found by what defines or uses them (a pure rename in /repo changes nothing for the rules).
+    Call before any Origin of `b` is created."""
+    # the stream item: the insert request received from the client stream
+    util.bind_role(b, 'req', type_rx=r'proto::InsertRequest$', origin_rx=r'Streaming::message\(', full=True)
+    # the accumulated batch: the vector whose content is handed on (mem::take) to the engine / the batch executor
+    util.bind_role(b, 'documents', type_rx=r'^alloc::vec::Vec<\(u64, alloc::vec::Vec<f32>', used_as=(r'mem::take$', 0))
+    util.bind_role(b, 'pending', type_rx=r'^alloc::vec::Vec<kyrodb_engine::proto::SearchRequest>$', used_as=(r'mem::take$', 0))
+    # the size of a repeated-field request: the length of its id list
+    util.bind_role(b, 'total_requested', type_rx=r'^u(32|64|size)$', origin_rx=r'^Vec::len\(.*BulkQueryRequest\.doc_ids\)$', full=True)
+
+
+def _item_counter(b, sinks):
+    """The user variable that counts the items handed to `sinks` (blocks), whatever it is called: an integer that starts at a constant and is only ever
+    incremented by 1, with an increment on every path from the entry to a sink and between two sinks — so the number of sink executions never exceeds it.
+    (Other counters of the same shape — failures, successes — are incremented on some paths only, or after the sink.)  Local number, or None unless exactly one."""
+    of = flow.Origin(b)
+    sinks = set(sinks)
+    out = []
+    for l, names in sorted(b.varnames.items()):
+        if not names or not re.match(r'^[ui](8|16|32|64|128|size)$', b.locals[l]):
+            continue
+        incs, other = set(), 0
+        for (bb, idx, kind, payload) in b.defs.get(l, []):
+            r = flow.render(of.of_rvalue(payload['rv'], 0, frozenset({l}))) if kind == 'assign' else '?'
+            if re.match(r'^\(_%d Add(WithOverflow)? 1\)(\.0)?$' % l, r):
+                incs.add(bb)
+            elif not re.match(r'^\d+$', r):
+                other += 1
+        if other or not incs:
+            continue
+        before = (b.reach([0], avoid_blocks=incs) | {0}) - incs
+        between = set()
+        for s_ in sinks:
+            between |= b.reach(b.succ(s_), avoid_blocks=incs) | (set(b.succ(s_)) - incs)
+        if not (before & sinks) and not (between & sinks):
+            out.append(l)
+    return out[0] if len(out) == 1 else None
+
+
+def _is_query(b, tok):
+    """`tok` (arg:x / var:x) is the query of a search entry point: the `query` parameter (or its copy in the async body), or — in the batch entry point — an
+    element of the `queries` parameter, whatever the loop variable is called."""
+    if tok in ('arg:query', 'var:query'):
+        return True
+    if not tok.startswith('var:'):
+        return False
+    of = flow.Origin(b)
+    return any(re.search(r'Iterator>::next\(.*\barg:queries\b', flow.render(of.of_local(l))) for l in b.var_local(tok[4:]))
+
+
 def _finite_closure(prog, pred):
     """the any(..) closure is `|v| !v.is_finite()`"""
     m = re.search(r'closure:([\w:<> ]*?\{closure#\d+\})', pred)
@@ -150,6 +201,7 @@ def run(ctx, prog):
     # streaming handlers: per-item guards (id, empty, MAX_DIM) skip the item before the engine / the queue
     for h, sink_rx in (('bulk_insert', r'TieredEngine::insert$'), ('bulk_load_hnsw', r'::push$')):
         b = server.handler(ctx, 'C15.R2', h, 'KyroDBServiceImpl::tenant_context')
+        _bind_stream_roles(b)    # req = the stream item, documents = the accumulated batch
         ov = flow.Origin(b, stop_at_vars=True)
         sinks = [c.bb for c in b.calls if c.callee and re.search(sink_rx, c.callee) and (h == 'bulk_insert' or flow.render(ov.of_operand(c.args[0])) == 'var:documents')]
         ITEM = [('id ≥ 1', r'^cmp\[\+ var:req→\w+\.doc_id <= 0\]$'), ('non-empty', r'^bool\[Vec::is_empty\(var:req→\w+\.embedding\)\]$'),
@@ -232,8 +284,12 @@ def run(ctx, prog):
                     det = 'engine search dominated by validation success: %s' % ok
                     o = flow.Origin(b, stop_at_vars=True)
                     args = [flow.render(o.of_operand(a)) for a in se[0].args]
-                    ok = ok and any('var:plan' in a for a in args)
-                    det += '; uses the plan: %s' % any('var:plan' in a for a in args)
+                    # the plan is the validator's success value (fully expanded origin: independent of what the local holding it is called)
+                    fo = flow.Origin(b)
+                    uses_plan = any('var:plan' in a for a in args) or any(
+                        re.search(r'KyroDBServiceImpl::validate_search_request\(.*\)@(?:Continue|Ok)→(?:Continue|Ok)\.0→SearchValidationPlan\.\w+', flow.render(fo.of_operand(a))) for a in se[0].args)
+                    ok = ok and uses_plan
+                    det += '; uses the plan: %s' % uses_plan
             ctx.inst('C15.R3', fn.split('::')[-1], 'validates before searching', ok, det)
     ctx.floor('C15.R3', 'search executors', n_ex, 2, 'single and batch')
     others = sorted(set(c.body.short.split('::{')[0] for c in prog.all_calls() if c.body.crate == 'kyrodb_server' and c.callee and re.search(r'TieredEngine::knn_search\w*$', c.callee)))
@@ -251,9 +307,11 @@ def run(ctx, prog):
         fam = prog.family(root)
         G = None
         for b in fam:
+            # role, found structurally: the cold tier's configured dimension is the variable assigned from HnswBackend::dimension()
+            util.bind_role(b, 'backend_dim', type_rx=r'^usize$', assigned_from=r'HnswBackend::dimension')
             bv = flow.Origin(b, stop_at_vars=True)
             preds = [(i_, tg, p) for i_, blk in enumerate(b.blocks) if blk['t']['k'] == 'switch' and i_ in b.live_blocks() for tg, p in flow.switch_edge_predicates(b, i_, bv)]
-            eq = [(i_, tg) for i_, tg, p in preds if re.match(r'^cmp\[\+ (?:slice|Vec)::len\((?:arg|var):query\) - var:backend_dim == 0\]$', p)]
+            eq = [(i_, tg) for i_, tg, p in preds for m_ in [re.match(r'^cmp\[\+ (?:slice|Vec)::len\(((?:arg|var):\w+)\) - var:backend_dim == 0\]$', p)] if m_ and _is_query(b, m_.group(1))]
             if eq:
                 G = (b, eq, [(i_, tg) for i_, tg, p in preds if p == 'cmp[+ var:backend_dim == 0]'])
                 break
@@ -490,21 +548,29 @@ def run(ctx, prog):
     BOUNDS = {'bulk_insert': (r'var:batch_count', r'TieredEngine::insert$'), 'bulk_load_hnsw': (r'var:total_received', r'::push$'),
               'bulk_search': (r'var:total_count', r'::push$'), 'bulk_query': (r'var:total_requested', r'TieredEngine::bulk_query_with_source$'),
               'batch_delete': (r'Vec::len\(.*IdList\.doc_ids\)', r'TieredEngine::batch_delete$|TieredEngine::get_metadata$')}
+    STREAMED = ('bulk_insert', 'bulk_load_hnsw', 'bulk_search')   # the batch size is a per-item counter (the names above are only the fallback)
     for h, (cnt_rx, sink_rx) in BOUNDS.items():
         fam = server.handler_family(prog, h)
         okb = False
         det = 'no bound found'
         for b in fam:
+            _bind_stream_roles(b)    # documents / pending = the accumulated batch, total_requested = the length of the request's id list
             ov = flow.Origin(b, stop_at_vars=True)
+            sinks = [c.bb for c in b.calls if c.callee and re.search(sink_rx, c.callee) and (not sink_rx.startswith('::push') or flow.render(ov.of_operand(c.args[0])) in ('var:documents', 'var:pending'))]
+            crx = cnt_rx
+            if h in STREAMED and sinks:
+                # the batch size of a streaming RPC is the variable that structurally counts the items handed to the sink, whatever it is called
+                cl = _item_counter(b, sinks)
+                if cl is not None:
+                    crx = 'var:' + re.escape(b.varnames[cl][0])
             over = []
             for i, blk in enumerate(b.blocks):
                 if blk['t']['k'] == 'switch' and i in b.live_blocks():
                     for tg, p in flow.switch_edge_predicates(b, i, ov):
-                        if re.match(r'^cmp\[\+ %s >= (\d+)\]$' % cnt_rx, p):
+                        if re.match(r'^cmp\[\+ %s >= (\d+)\]$' % crx, p):
                             over.append((i, tg, p))
             if not over:
                 continue
-            sinks = [c.bb for c in b.calls if c.callee and re.search(sink_rx, c.callee) and (not sink_rx.startswith('::push') or flow.render(ov.of_operand(c.args[0])) in ('var:documents', 'var:pending'))]
             if not sinks:
                 continue
             # from the over-limit edge the sink is unreachable without passing back through a new message / is never reached
